@@ -574,8 +574,12 @@ func c05GenAdv(r *rng) *protocol.RouteAdvertise {
 	case 0:
 		m.EncPath = &protocol.EncryptedData{Encrypted: true, Data: r.bytes(r.pick(0, 1, 48, 60, 300))}
 	case 1: // plaintext wrapper with trailing bytes after the path
-		m.Path = c05GenIDs(r)
-		m.EncPath = &protocol.EncryptedData{Encrypted: false, Data: append(protocol.EncodePath(m.Path), r.bytes(r.pick(0, 1, 5))...)}
+		m.EncPath = &protocol.EncryptedData{Encrypted: false, Data: append(protocol.EncodePath(c05GenIDs(r)), r.bytes(r.pick(0, 1, 5))...)}
+		// keep Path consistent with what a decoder would derive from the wrapper (a path of
+		// 256+ ids wraps its count byte)
+		if p, err := protocol.DecodePath(m.EncPath.Data); err == nil {
+			m.Path = p
+		}
 	default:
 		m.Path = c05GenIDs(r)
 	}
@@ -1058,6 +1062,19 @@ func init() {
 	register("c05", &Engine{Run: c05Run, Gen: c05Gen, Facts: c05Facts})
 }
 
+// c05Parse turns tokens into a struct; malformed tokens (a harness-side problem, not a codec
+// crash) yield ok=false. All tokens must be consumed.
+func c05Parse(k *c05Kind, toks []string) (m any, ok bool) {
+	defer func() {
+		if r := recover(); r != nil {
+			m, ok = nil, false
+		}
+	}()
+	rd := &c05R{f: toks}
+	m = k.from(rd)
+	return m, rd.i == len(toks)
+}
+
 func c05Toks(k *c05Kind, m any) string {
 	w := &c05W{}
 	k.to(w, m)
@@ -1073,7 +1090,10 @@ func c05Run(line string) string {
 	switch f[0] {
 	case "rt":
 		k := c05ByName[f[1]]
-		m := k.from(&c05R{f: f[2:]})
+		m, ok := c05Parse(k, f[2:])
+		if !ok {
+			return "bad-op"
+		}
 		b := k.enc(m)
 		m2, err := k.dec(b)
 		if err != nil {
@@ -1137,7 +1157,11 @@ func c05Run(line string) string {
 
 // c05Mutate writes decoder ops for mutated variants of a valid encoding.
 func c05Mutate(w *bufio.Writer, r *rng, k *c05Kind, b []byte, perBase int, exhaustive bool) {
-	emit := func(x []byte) { fmt.Fprintf(w, "dec %s %s\n", k.name, hexTok(x)) }
+	emit := func(x []byte) {
+		if len(x) <= protocol.MaxPayloadSize { // C05 quantifies over byte strings up to the frame payload size
+			fmt.Fprintf(w, "dec %s %s\n", k.name, hexTok(x))
+		}
+	}
 	if exhaustive && len(b) <= 160 {
 		for i := 0; i <= len(b); i++ { // truncation at every offset
 			emit(b[:i])
@@ -1182,6 +1206,104 @@ func c05Mutate(w *bufio.Writer, r *rng, k *c05Kind, b []byte, perBase int, exhau
 	}
 }
 
+// c05Boundary returns values sitting exactly on / next to each kind's wire limits; they are
+// emitted on every run (the random stream only reaches them now and then).
+func c05Boundary(name string, r *rng) []any {
+	var out []any
+	idsN := func(n int) []identity.AgentID {
+		l := make([]identity.AgentID, n)
+		for i := range l {
+			l[i] = c05GenID(r)
+		}
+		return l
+	}
+	strN := func(n int) string { return strings.Repeat("x", n) }
+	switch name {
+	case "ctrlresp":
+		for _, n := range []int{16371, 16372, 16373} {
+			out = append(out, &protocol.ControlResponse{RequestID: 1, ControlType: 2, Success: true, Data: r.bytes(n)})
+		}
+	case "ctrlreq":
+		for _, n := range []int{65535, 65536} {
+			out = append(out, &protocol.ControlRequest{RequestID: 1, ControlType: 5, Path: idsN(255), Data: r.bytes(n)})
+		}
+		out = append(out, &protocol.ControlRequest{RequestID: 1, Path: idsN(256)})
+	case "udpdatagram":
+		for _, n := range []int{1472, 65535, 65536} {
+			out = append(out, &protocol.UDPDatagram{AddressType: protocol.AddrTypeDomain, Address: append([]byte{255}, r.bytes(255)...), Port: 53, Data: r.bytes(n)})
+		}
+	case "icmpecho":
+		for _, n := range []int{65535, 65536} {
+			out = append(out, &protocol.ICMPEcho{Identifier: 65535, Sequence: 65535, SrcIP: r.bytes(255), Data: r.bytes(n)})
+		}
+	case "encdata":
+		for _, n := range []int{65535, 65536} {
+			out = append(out, &protocol.EncryptedData{Encrypted: true, Data: r.bytes(n)})
+		}
+	case "streamopenerr", "udpopenerr", "icmpopenerr":
+		for _, n := range []int{254, 255, 256} {
+			out = append(out, c05Err{1, 40, strN(n)})
+		}
+	case "peerhello":
+		for _, n := range []int{255, 256} {
+			m := &protocol.PeerHello{Version: 1, DisplayName: strN(255)}
+			for i := 0; i < n; i++ {
+				m.Capabilities = append(m.Capabilities, strN(i%3))
+			}
+			out = append(out, m)
+		}
+	case "path":
+		out = append(out, idsN(255), idsN(256))
+	case "streamopen", "udpopen", "icmpopen", "sleep", "wake":
+		for _, n := range []int{255, 256} {
+			switch name {
+			case "icmpopen":
+				out = append(out, &protocol.ICMPOpen{RequestID: 1, DestIP: r.bytes(255), RemainingPath: idsN(n)})
+			case "sleep", "wake":
+				out = append(out, c05Cmd{seen: idsN(n)})
+			default:
+				out = append(out, c05Open{at: protocol.AddrTypeDomain, addr: append([]byte{255}, r.bytes(255)...), path: idsN(n)})
+			}
+		}
+	case "routeadv", "routewd":
+		for _, n := range []int{255, 256} {
+			routes := make([]protocol.Route, n)
+			for i := range routes {
+				routes[i] = protocol.Route{AddressFamily: protocol.AddrFamilyIPv4, PrefixLength: 32, Prefix: []byte{10, 0, byte(i >> 8), byte(i)}, Metric: 65535}
+			}
+			if name == "routeadv" {
+				out = append(out, &protocol.RouteAdvertise{OriginDisplayName: strN(255), Sequence: ^uint64(0), Routes: routes, Path: idsN(255), SeenBy: idsN(255)})
+			} else {
+				out = append(out, &protocol.RouteWithdraw{Sequence: ^uint64(0), Routes: routes, SeenBy: idsN(255)})
+			}
+		}
+	case "nodeinfo":
+		for _, d := range []int{0, 1} {
+			n := &protocol.NodeInfo{DisplayName: strN(255), Version: strN(255), StartTime: -1}
+			for i := 0; i < 255+d; i++ {
+				n.IPAddresses = append(n.IPAddresses, strN(i%4))
+			}
+			for i := 0; i < protocol.MaxPeersInNodeInfo+d; i++ {
+				n.Peers = append(n.Peers, protocol.PeerConnectionInfo{Transport: "quic", RTTMs: -1, IsDialer: true})
+			}
+			for i := 0; i < protocol.MaxForwardListenersInNodeInfo+d; i++ {
+				n.ForwardListeners = append(n.ForwardListeners, protocol.ForwardListenerInfo{Key: strN(255), Address: ":1"})
+			}
+			for i := 0; i < protocol.MaxShellsInNodeInfo+d; i++ {
+				n.Shells = append(n.Shells, "sh")
+			}
+			out = append(out, n)
+		}
+	case "queued":
+		q := &protocol.QueuedState{SleepCmd: c05Sleep(c05Cmd{seen: idsN(255)}), WakeCmd: c05Wake(c05Cmd{seen: idsN(255)})}
+		for i := 0; i < 300; i++ {
+			q.Withdraws = append(q.Withdraws, protocol.RouteWithdraw{Sequence: uint64(i)})
+		}
+		out = append(out, q)
+	}
+	return out
+}
+
 func c05Gen(w *bufio.Writer, seed int64, tier string) {
 	r := newRng(seed)
 	nStruct, perBase, nRandom, nExh := 24, 8, 16, 1
@@ -1189,16 +1311,25 @@ func c05Gen(w *bufio.Writer, seed int64, tier string) {
 		nStruct, perBase, nRandom, nExh = 300, 12, 300, 12
 	}
 	for _, k := range c05Kinds {
+		for _, m := range c05Boundary(k.name, r) {
+			fmt.Fprintf(w, "rt %s %s\n", k.name, c05Toks(k, m))
+			b := k.enc(m)
+			if len(b) <= protocol.MaxPayloadSize {
+				fmt.Fprintf(w, "dec %s %s\n", k.name, hexTok(b))
+			}
+		}
 		for i := 0; i < nStruct; i++ {
 			m := k.gen(r)
 			fmt.Fprintf(w, "rt %s %s\n", k.name, c05Toks(k, m))
 			b := k.enc(m)
-			fmt.Fprintf(w, "dec %s %s\n", k.name, hexTok(b))
+			if len(b) <= protocol.MaxPayloadSize {
+				fmt.Fprintf(w, "dec %s %s\n", k.name, hexTok(b))
+			}
 			c05Mutate(w, r, k, b, perBase, false)
 			if i < nExh {
 				c05Mutate(w, r, k, b, 0, true)
 			}
-			if i%4 == 0 {
+			if i%4 == 0 && len(b) <= protocol.MaxPayloadSize {
 				fmt.Fprintf(w, "alloc %s %s\n", k.name, hexTok(b))
 			}
 		}
